@@ -35,7 +35,39 @@ pub fn alphabet() -> Vec<(String, Sett)> {
         // the same filled drawing under different colour settings (style sheet built from the settings)
         ("*--#\n+--+\n|  |\n+--+".to_string(), Sett { fill_color: "red".into(), background: "#102030".into(), stroke_color: "green".into(), ..d.clone() }),
         ("*--#\n+--+\n|  |\n+--+".to_string(), d.clone()),
+        // same byte length as member 2, different content (conversions are made from one refilled buffer)
+        (".--.\n|  |\n'--'".to_string(), b.clone()),
     ]
+}
+
+/// a page-sized drawing: a sheet of a thousand single-letter labels followed by boxes, connectors and prose
+pub fn heavy_page(variant: usize) -> String {
+    let letters: Vec<char> = "abcdefghijklmnopqrstuvwxyzABCDEFGHIJKLMNOPQRSTUVWXYZ".chars().collect();
+    let mut text = String::new();
+    let mut n = variant * 7;
+    for _row in 0..25 {
+        for _col in 0..40 {
+            text.push(letters[n % letters.len()]);
+            text.push_str("  ");
+            n += 1 + variant;
+        }
+        text.push_str("\n\n");
+    }
+    for i in 0..6 {
+        text.push_str("  +----------+        .----------.        +----------+\n");
+        text.push_str(&format!("  | input {:02} |------->( stage {:02}  )------>| output {} |\n", i, i + variant, i % 10));
+        text.push_str("  +----------+        '----------'        +----------+\n");
+        text.push_str(&format!("      the quick brown fox number {} jumps over the lazy dog\n\n", variant * 10 + i));
+    }
+    text
+}
+
+/// what the scheduler harnesses index into: the history alphabet followed by two page-sized drawings
+pub fn sched_alphabet() -> Vec<(String, Sett)> {
+    let mut v = alphabet();
+    v.push((heavy_page(0), Sett::default_()));
+    v.push((heavy_page(1), Sett::default_()));
+    v
 }
 
 /// ask a FRESH feature-off process (real once_cell tables) to convert a sequence
@@ -74,7 +106,7 @@ static REFS: OnceLock<Result<Vec<String>, String>> = OnceLock::new();
 fn references() -> &'static Result<Vec<String>, String> {
     REFS.get_or_init(|| {
         let mut v = vec![];
-        for m in alphabet() {
+        for m in sched_alphabet() {
             let o = fresh_process(&[m])?;
             v.push(o[0].clone());
         }
@@ -92,6 +124,10 @@ pub fn pair_alphabet() -> Vec<String> {
     }
     for (inp, _s) in alphabet() {
         v.push(inp);
+    }
+    // the same shape at two positions, and look-alikes made of the same characters in another layout
+    for d in ["(_)---", "   (_)---", "\n\n (_)---", " .-.\n(   )--\n `-'", "     .-.\n    (   )--\n     `-'", "()", "(\n)", ")(", " ()", "(_)", "(\n_)", " _\n()"] {
+        v.push(d.to_string());
     }
     v
 }
@@ -176,12 +212,14 @@ fn harness(id: i64) -> Vec<Vec<usize>> {
         4 => vec![vec![10], vec![11]],
         5 => vec![vec![1], vec![2], vec![7]],
         6 => vec![vec![6], vec![8], vec![9]],
+        // two page-sized drawings at once (work that is bounded or shared per process shows here)
+        8 => vec![vec![alphabet().len()], vec![alphabet().len() + 1]],
         _ => vec![vec![2], vec![3]],
     }
 }
 
 fn bodies_of(h: &[Vec<usize>]) -> Vec<Body> {
-    let alpha = alphabet();
+    let alpha = sched_alphabet();
     h.iter()
         .map(|idxs| {
             let items: Vec<(String, Sett)> = idxs.iter().map(|i| alpha[*i].clone()).collect();
@@ -196,11 +234,11 @@ impl Prop for C07 {
         "C07"
     }
     fn rule(&self) -> &'static str {
-        "(a) histories: every sequence of up to 3 (thorough 4) conversions over a 14-member alphabet chosen to collide on the lazily built tables, each sequence in its own fresh process with the real once_cell tables, every output compared byte for byte \
+        "(a) histories: every sequence of up to 3 (thorough 4) conversions over a 15-member alphabet chosen to collide on the lazily built tables (two members have the same byte length; every conversion is made from one refilled input buffer, so equal-length inputs share their address), each sequence in its own fresh process with the real once_cell tables, every output compared byte for byte \
          with the same conversion alone in a fresh process; (b) orders/processes: a corpus of ~15 000 inputs (thorough ~117 000: all 2-character neighbourhoods) is converted by 16 fresh processes, each in a different order (identity, reverse, 14 stride permutations: every ordered pair of inputs occurs in both relative orders), \
          and every output hash compared with this process's own result (different process = different hash seeds; also repeated 4 times in-process); (c) hash-order seam: for all 3x3 grids with <=3 (thorough 4) cells over 6 characters ALL n! iteration orders of the property map are forced, \
          for larger drawings a structured family of orders, also with the tables rebuilt under the forced order; (d) schedules: 2-3 threads converting from the uninitialised table state under an owned scheduler, all interleavings of the instrumented points with at most 2 preemptions (thorough: 3 for two threads), \
-         outputs compared with sequential references, deadlock = no enabled thread; one schedule is replayed twice to prove the harness owns every choice. distinct_nontrivial = distinct (scope, outcome) pairs incl. distinct schedules' point sequences"
+         one harness with two page-sized drawings (a thousand labels each, about 10 000 points) at once with one preemption (thorough: at every point; quick: at the first, middle and last occurrence of every program point of either thread), outputs compared with sequential references, deadlock = no enabled thread; one schedule is replayed twice to prove the harness owns every choice. distinct_nontrivial = distinct (scope, outcome) pairs incl. distinct schedules' point sequences"
     }
     fn assumptions(&self) -> Vec<String> {
         vec![
@@ -253,9 +291,9 @@ impl Prop for C07 {
             }),
         ];
         let hs: Vec<(i64, i64)> = if quick {
-            vec![(0, 2), (1, 2), (2, 1), (3, 2), (4, 2), (5, 1)]
+            vec![(0, 2), (1, 2), (2, 1), (3, 2), (4, 2), (5, 1), (8, 1)]
         } else {
-            vec![(0, 3), (1, 3), (2, 2), (3, 3), (4, 3), (5, 2), (6, 2), (7, 3)]
+            vec![(0, 3), (1, 3), (2, 2), (3, 3), (4, 3), (5, 2), (6, 2), (7, 3), (8, 2)]
         };
         v.push(Scope::new("pair-histories", "every ordered pair (X, Y) of a 100-drawing alphabet (the quadrants of every catalogue circle, rounded tabs, the history alphabet): Y converted immediately after X in one process, compared with Y alone in a fresh process", |f| {
             for x in 0..pair_alphabet().len() {
@@ -269,9 +307,12 @@ impl Prop for C07 {
         }));
         v.push(Scope::new("schedules", "harness x preemption bound x subtree of the default execution", move |f| {
             for &(h, b) in &hs {
-                // the default execution plus up to 256 subtrees below it
-                for child in -1..256 {
-                    f(Case::sn("schedule", vec![h, b, child]));
+                // the default execution plus up to `slots` subtrees below it; the page-sized harness has about
+                // ten thousand points: the thorough tier explores a preemption at every one of them, the quick
+                // tier at the first, the middle and the last dynamic occurrence of every (thread, program point)
+                let (slots, mode) = if h == 8 { if quick { (256, 1) } else { (12288, 0) } } else { (256, 0) };
+                for child in -1..slots {
+                    f(Case::sn("schedule", vec![h, b, child, mode, slots]));
                 }
             }
         }));
@@ -522,7 +563,7 @@ impl Prop for C07 {
                 let (h, bound, child) = (case.n[0], case.n[1] as usize, case.n[2]);
                 let hv = harness(h);
                 let bodies = bodies_of(&hv);
-                let alpha = alphabet();
+                let alpha = sched_alphabet();
                 let refs = match references() {
                     Ok(r) => r,
                     Err(e) => {
@@ -557,8 +598,23 @@ impl Prop for C07 {
                     }
                     return;
                 }
-                let (root, kids) = sched::root_children(&bodies, bound);
+                let (root, mut kids) = sched::root_children(&bodies, bound);
                 cx.conversions += hv.iter().map(|t| t.len() as u64).sum::<u64>();
+                let (mode, slots) = (case.n.get(3).copied().unwrap_or(0), case.n.get(4).copied().unwrap_or(256) as usize);
+                if mode == 1 {
+                    // keep the subtrees whose first deviation sits at the first, middle or last occurrence of its (thread, event)
+                    let mut occ: std::collections::BTreeMap<(usize, String), Vec<usize>> = Default::default();
+                    for (i, p) in root.points.iter().enumerate() {
+                        occ.entry((p.thread, p.event.clone())).or_default().push(i);
+                    }
+                    let mut keep: std::collections::BTreeSet<usize> = Default::default();
+                    for v in occ.values() {
+                        keep.insert(v[0]);
+                        keep.insert(v[v.len() / 2]);
+                        keep.insert(v[v.len() - 1]);
+                    }
+                    kids.retain(|k| keep.contains(&(k.len() - 1)));
+                }
                 let judge = |cx: &mut Cx, choices: &[usize], x: &sched::Execution| -> bool {
                     cx.compared();
                     if let Some(e) = &x.replay_error {
@@ -584,7 +640,7 @@ impl Prop for C07 {
                                         h,
                                         t,
                                         j,
-                                        alpha[hv[t][j]].0,
+                                        crate::runner::trunc(&alpha[hv[t][j]].0, 60),
                                         choices,
                                         match o {
                                             Err(e) => format!(" ({})", e),
@@ -618,8 +674,8 @@ impl Prop for C07 {
                     }
                     cx.tally_n(&format!("harness {} points in the default execution", h), root.points.len() as u64);
                     cx.tally_n(&format!("harness {} subtrees", h), kids.len() as u64);
-                    if kids.len() > 256 {
-                        cx.machinery.push(format!("harness {} has {} subtrees, more than the 256 slots", h, kids.len()));
+                    if kids.len() > slots {
+                        cx.machinery.push(format!("harness {} has {} subtrees, more than the {} slots", h, kids.len(), slots));
                     }
                     cx.outcome(&("schedule-root", h, root.points.len()));
                     return;
